@@ -1150,6 +1150,18 @@ inline bool Transport::setReadMode(SessionId sid, ReadMode mode)
   ReadMode oldMode = ReadMode::Async;
   {
     std::lock_guard<std::mutex> lk(_impl->syncMutex);
+    // A closed session has no read mode any more: the close handler erased it
+    // and left a tombstone (closed receive buffer) so that a late receiveSync
+    // can still drain the tail and report PeerClosed. Registering a mode for it
+    // again would let a later switch to Async flush that tail through the data
+    // callback AFTER the close callback has fired (and would leak the entry).
+    // The switch is vacuous: nothing is registered, nothing is flushed; the
+    // tail of a closed session is reachable through receiveSync only.
+    auto closedIt = _impl->receiveBuffers.find(sid);
+    if (closedIt != _impl->receiveBuffers.end() && closedIt->second->closed)
+    {
+      return true;
+    }
     auto it = _impl->readModes.find(sid);
     if (it != _impl->readModes.end())
     {
